@@ -187,3 +187,7 @@ def run(ctx):
 
     # ---- Z5 ----------------------------------------------------------------------
     x2(ctx, R, rule="X2")
+    # an error is reported at the token that causes it only if the check runs while that token is the current one: the extension gates
+    # (E2-E4 of C07) must sit at the lookup / at the tag, not at a later token
+    from .c07 import gates
+    gates(ctx, R)
